@@ -51,7 +51,7 @@ def run(ctx):
     recs = hist.run_histories(ctx, res, 400 if thorough else 60, 10 if thorough else 6, store_kinds=kinds,
                               on_record=on_record)
     # functions invoked from several sites (a path possibly kept twice): rejected explicitly, or every value right
-    recs += hist.run_histories(ctx, res, 60 if thorough else 12, 4, store_kinds=("memory",), on_record=on_record, allow="multi")
+    recs += hist.run_histories(ctx, res, 80 if thorough else 24, 3, store_kinds=("memory",), on_record=on_record, allow="multi")
     # directed stratum: literal arguments flowing down chains of keeps through run-time expressions
     recs += hist.run_histories(ctx, res, 100 if thorough else 20, 6, store_kinds=("memory",), on_record=on_record, allow="chain",
                                edit_kinds=["const_arg", "const_arg", "var", "body", "revert", "none", "multiline", "rt_arg", "rt_arg"])
